@@ -23,6 +23,8 @@ FRESH_METHODS = {"copy", "astype", "tolist", "flatten", "sum", "mean", "any", "a
 INPLACE_METHODS = {"fill", "sort", "put", "itemset", "resize", "partition", "setfield", "byteswap", "setflags",
                    "append", "extend", "update", "clear", "pop", "remove", "insert", "add", "discard"}
 ARRAYISH_DEFS = (ast.Compare,)
+# module-level numpy functions that write into their first argument
+NP_INPLACE_FUNCS = {"np.put", "np.place", "np.putmask", "np.copyto", "np.fill_diagonal", "np.put_along_axis", "np.random.shuffle"}
 
 
 MODULE_ALIASES = {"np", "numpy", "pandas", "pd", "scipy", "sp", "math", "itertools", "os", "heapq", "bisect", "copy"}
@@ -252,6 +254,10 @@ class Freshness:
                 for k in n.keywords:
                     if k.arg == "out":
                         out.append((n, k.value, "out="))
+                    if k.arg == "copy" and isinstance(k.value, ast.Constant) and k.value.value is False and call_name(n) in ("np.nan_to_num", "numpy.nan_to_num") and n.args:
+                        out.append((n, n.args[0], "nan_to_num(copy=False)"))          # replaces the NaNs of its argument in place
+                if call_name(n) in NP_INPLACE_FUNCS and n.args:
+                    out.append((n, n.args[0], call_name(n) + "()"))
             elif isinstance(n, ast.Delete):
                 for t in n.targets:
                     if isinstance(t, ast.Subscript):
